@@ -59,8 +59,18 @@ func genC02(t *rapid.T) C02Scn {
 	n := rapid.IntRange(2, 6).Draw(t, "n")
 	s := C02Scn{Batch: rapid.SampledFrom([]int{1, 2, 4, 8}).Draw(t, "batch")}
 	used := map[string]bool{}
-	for i := 0; i < n; i++ {
-		s.IDs = append(s.IDs, genNodeName(t, used))
+	if rapid.IntRange(0, 3).Draw(t, "casefamily") == 0 {
+		// node IDs that differ only in letter case (IDs are case-sensitive everywhere in the protocol)
+		base := rapid.StringMatching(`[a-z]{2,6}`).Draw(t, "base")
+		variants := []string{base, strings.ToUpper(base), strings.ToUpper(base[:1]) + base[1:], base[:1] + strings.ToUpper(base[1:]), base + "x", "x" + base}
+		for i := 0; i < n; i++ {
+			s.IDs = append(s.IDs, variants[i])
+			used[variants[i]] = true
+		}
+	} else {
+		for i := 0; i < n; i++ {
+			s.IDs = append(s.IDs, genNodeName(t, used))
+		}
 	}
 	chain := rapid.Bool().Draw(t, "chain")
 	for i := 1; i < n; i++ {
@@ -91,7 +101,7 @@ func genC02(t *rapid.T) C02Scn {
 		} else {
 			sd.To = rapid.IntRange(0, len(s.Listeners)-1).Draw(t, "to")
 		}
-		sd.Len = rapid.OneOf(rapid.SampledFrom([]int{0, 1, 35, 36, 37, 255, 256, 257, 1199, 1200, 1201, 1363, 1400, 4096, 16383, 16384}), rapid.IntRange(0, 2000), rapid.IntRange(0, 16384)).Draw(t, "len")
+		sd.Len = rapid.OneOf(rapid.SampledFrom([]int{0, 1, 35, 36, 37, 219, 220, 221, 255, 256, 257, 1163, 1164, 1165, 1199, 1200, 1201, 1363, 1400, 4060, 4096, 16347, 16348, 16383, 16384}), rapid.IntRange(0, 2000), rapid.IntRange(0, 16384)).Draw(t, "len")
 		s.Sends = append(s.Sends, sd)
 	}
 	return s
